@@ -13,19 +13,21 @@ EXTENDS TimestampsProp, TLC, Json
 
 CONSTANTS Inits, Steps, MaxLen, LateAfter
 
-VARIABLES overall, prev, truePos, n, hist, beh
-bvars == <<overall, prev, truePos, n, hist, beh>>
+VARIABLES overall, prev, truePos, n, hist, beh,
+          clk, tLead       \* seconds: now, and when the leading track's last packet arrived (one packet per second)
+bvars == <<overall, prev, truePos, n, hist, beh, clk, tLead>>
 
 Init ==
   /\ TInit
   /\ overall = [t \in Tracks |-> 0] /\ prev = [t \in Tracks |-> 0] /\ truePos = [t \in Tracks |-> 0]
-  /\ n = 0 /\ hist = <<>> /\ beh = ""
+  /\ n = 0 /\ hist = <<>> /\ beh = "" /\ clk = 0 /\ tLead = 0
 
 Export(h) == IF Len(h) = MaxLen THEN ToJson([steps |-> h]) ELSE ""
 
 Start(ts) ==
   /\ n = 0
-  /\ First(1, ts, 0)
+  /\ First(1, ts, 0, clk + 1)
+  /\ clk' = clk + 1 /\ tLead' = clk + 1
   /\ prev' = [prev EXCEPT ![1] = ts] /\ UNCHANGED <<overall, truePos>>
   /\ n' = 1 /\ hist' = <<[tr |-> 1, ts |-> ts, d |-> 0, late |-> FALSE]>> /\ beh' = Export(hist')
 
@@ -34,7 +36,8 @@ StepTrack(tr, d) ==
   /\ LET ts == (prev[tr] + W + d) % W
          delta == LET x == (ts + W - prev[tr]) % W IN IF x >= W \div 2 THEN x - W ELSE x   \* int32(ts - prev)
          pts == overall[tr] + delta
-     IN /\ Dec(tr, ts, pts)
+     IN /\ Dec(tr, ts, pts, clk + 1)
+        /\ clk' = clk + 1 /\ tLead' = IF tr = 1 THEN clk + 1 ELSE tLead
         /\ overall' = [overall EXCEPT ![tr] = pts] /\ prev' = [prev EXCEPT ![tr] = ts]
         /\ truePos' = [truePos EXCEPT ![tr] = @ + d]
         /\ hist' = Append(hist, [tr |-> tr, ts |-> ts, d |-> d, late |-> FALSE])
@@ -44,7 +47,8 @@ StepTrack(tr, d) ==
 StartLate(ts) ==
   /\ n >= 1 /\ n < MaxLen /\ ~known[2]
   /\ LET pts == overall[1] + LateAfter * rate[2] IN
-     /\ Late(2, ts, pts, LateAfter)
+     /\ Late(2, ts, pts, tLead + LateAfter)
+     /\ clk' = tLead + LateAfter /\ UNCHANGED tLead
      /\ overall' = [overall EXCEPT ![2] = pts] /\ prev' = [prev EXCEPT ![2] = ts]
      /\ truePos' = [truePos EXCEPT ![2] = pts]
      /\ hist' = Append(hist, [tr |-> 2, ts |-> ts, d |-> 0, late |-> TRUE])
@@ -69,5 +73,5 @@ BImpliesA ==
       LET ts == (prev[tr] + W + d) % W
           x == (ts + W - prev[tr]) % W
           delta == IF x >= W \div 2 THEN x - W ELSE x
-      IN ENABLED Dec(tr, ts, overall[tr] + delta)
+      IN ENABLED Dec(tr, ts, overall[tr] + delta, clk + 1)
 =============================================================================
